@@ -102,7 +102,7 @@ def run(rep):
         raise
     except Exception as e:
         raise AnalysisError('cookie module: anchors not recognised (%s: %s)' % (type(e).__name__, e))
-    for group in (rule_a, rule_b, rule_c, rule_d, rule_e, rule_h):
+    for group in (rule_a, rule_b, rule_c, rule_d, rule_e, rule_g, rule_h):
         rep.guard(_no_crash(group), rep, cx)
 
 
@@ -1467,6 +1467,140 @@ def _shared_name(act, obj, node):
         if src:
             return '%s (= %s, not a copy)' % (txt, ' / '.join(sorted(set(src))))
     return txt
+
+
+# ---------------------------------------------------------------------------------------------- R16.g
+# The cookie object the endpoint gets "contains exactly the data the application stored": between the dependency's
+# verification and the endpoint, and between the endpoint and save_cookie, clastic handles ONE object and adds nothing of
+# its own to it except the expiry stamp -- and what it stamps (and hands to save_cookie as the expiry, which the dependency
+# signs into the cookie as _expires) is the server's: configuration and clock, never something read from the request.
+def _derives(fl, e, at, sources, boundary, skip_stmts, seen=None):
+    """Does the value of ``e`` (evaluated at statement ``at``) derive from one of the parameters ``sources`` other than through
+    the locals in ``boundary`` / the definitions in ``skip_stmts`` (the verified cookie)?"""
+    seen = set() if seen is None else seen
+    if e is None:
+        return False
+    for n in ast.walk(e):
+        if not (isinstance(n, ast.Name) and isinstance(n.ctx, ast.Load)) or n.id in boundary:
+            continue
+        ds = fl.reaching(n.id, at) if n.id in fl.defs else None
+        if n.id in sources and (ds is None or any(d.kind == 'entry' for d in ds)):
+            return True
+        for d in ds or []:
+            if d.stmt is None or any(d.stmt is x for x in skip_stmts) or (n.id, id(d.stmt)) in seen:
+                continue
+            seen.add((n.id, id(d.stmt)))
+            src = d.value if d.value is not None else getattr(d.stmt, 'value', None)
+            if _derives(fl, src, d.stmt, sources, boundary, skip_stmts, seen):
+                return True
+    return False
+
+
+def _cookie_writes(fi, names):
+    """Effects of ``fi`` that change the contents of the mapping held in one of the locals ``names``: [(effect, statement)]."""
+    from ..effects import effects_in
+    out = []
+    for ef in effects_in(fi.node):
+        if ef.root not in names:
+            continue
+        if (ef.kind == 'mutcall' and isinstance(ef.target, ast.Name)) or (ef.kind in ('store', 'delete') and isinstance(ef.target, ast.Subscript)
+                                                                        and isinstance(ef.target.value, ast.Name)):
+            out.append((ef, ef.node if isinstance(ef.node, ast.stmt) else stmt_of(fi.mod, ef.node)))
+        elif isinstance(ef.node, ast.Call) and isinstance(ef.node.func, ast.Attribute) and ef.node.func.attr == 'set_expires':
+            out.append((ef, stmt_of(fi.mod, ef.node)))
+    for c in walk_body(fi.node):
+        if isinstance(c, ast.Call) and isinstance(c.func, ast.Attribute) and c.func.attr == 'set_expires' and norm(c.func.value) in names \
+                and not any(c is ef.node for ef, _ in out):
+            from ..effects import Effect
+            out.append((Effect('mutcall', c.func.value, c, 'set_expires'), stmt_of(fi.mod, c)))
+    return out
+
+
+def rule_g(rep, cx):
+    from ..effects import Flow
+    ck, ju, rq = cx.ck, cx.ju, cx.rq
+    rep.rule('R16.g', 'one cookie object, unchanged: unserialize returns the verified cookie or an empty one and does not write to it; request() '
+                      'provides and saves the object load_cookie returned, stores nothing in it but the expiry stamp after the endpoint, and takes '
+                      'neither the stamp nor the signed expiry from the request')
+    # -- JSONCookie.unserialize
+    fl = Flow(ju)
+    sc = cx.sup_calls[0]
+    returned = set()
+    for r in returns_of(ju):
+        vals = fl.leaves(r.value, r) if r.value is not None else []
+        for n in ast.walk(r.value) if r.value is not None else []:
+            if isinstance(n, ast.Name):
+                returned.add(n.id)
+        bad = [lf.value for lf in vals if not (lf.value is sc or _empty_cookie(cx, lf.value))]
+        ok = bool(vals) and not bad
+        rep.check('R16.g', fkey(ju, 'returns: %s' % norm(r.value)), ok,
+                  'returns the cookie the dependency verified, or an empty one' if ok else
+                  'unserialize can return %s: a cookie whose contents did not pass the dependency\'s MAC / expiry check (or no cookie at all)'
+                  % (short(bad[0], 50) if bad else 'None'), ck, r)
+    returned -= set(ju.params())
+    for ef, st in _cookie_writes(ju, returned):
+        rep.fail('R16.g', fkey(ju, 'writes: %s' % norm(ef.node)), '%s changes the cookie after verification: what is presented is no longer exactly '
+                 'what was signed' % short(ef.node, 60), ck, ef.node)
+    # -- SignedCookieMiddleware.request
+    fl = Flow(rq)
+    cfg = cfg_of(rq)
+    lcall = cx.load_calls[0]
+    lst = stmt_of(ck, lcall)
+    cvar = lst.targets[0].id if isinstance(lst, ast.Assign) and lst.value is lcall and len(lst.targets) == 1 and isinstance(lst.targets[0], ast.Name) else None
+    ncalls = [c for c in walk_body(rq.node) if isinstance(c, ast.Call) and isinstance(c.func, ast.Name) and c.func.id == 'next']
+    saves = [c for c in walk_body(rq.node) if isinstance(c, ast.Call) and call_tail(c) == 'save_cookie']
+    if cvar is None or len(ncalls) != 1 or not saves:
+        raise AnalysisError('SignedCookieMiddleware.request: load / next / save_cookie not found in the expected roles')
+    nst = stmt_of(ck, ncalls[0])
+    names = set(k for k in fl.aliases(cvar) if '.' not in k)
+    for what, c in [('provided', ncalls[0])] + [('saved', c) for c in saves]:
+        at = stmt_of(ck, c)
+        used = [n.id for n in ast.walk(c) if isinstance(n, ast.Name) and n.id in names] or [cvar]
+        ds = [d for nm in used for d in fl.reaching(nm, at)]
+        ok = bool(ds) and all(d.kind == 'assign' and (d.stmt is lst or (isinstance(d.value, ast.Name) and d.value.id in names)) for d in ds)
+        rep.check('R16.g', fkey(rq, '%s object' % what), ok, 'the cookie %s is the object load_cookie returned' % what if ok else
+                  'the cookie %s can be another object than the one load_cookie returned (re-bound: %s)'
+                  % (what, '; '.join(short(d.stmt, 40) if d.stmt is not None else 'unbound' for d in ds if d.stmt is not lst)), ck, c)
+    stamps = [s_ for s_, _ in _stamps(cx, rq, cvar)]
+    reqs = set(n.id for n in ast.walk(argn(lcall, 'request', 0) or ast.Constant(value=None)) if isinstance(n, ast.Name)) - {'self'}
+    before = cfg.coreach(cfg.nodes_of(nst))
+    n_ok = 0
+    for ef, st in _cookie_writes(rq, names):
+        key = fkey(rq, 'cookie write: %s' % norm(ef.node))
+        if not any(st is x for x in stamps):
+            rep.fail('R16.g', key, 'the middleware itself stores data in the cookie (%s): the endpoint / the client gets contents the application did not store'
+                     % short(ef.node, 60), ck, ef.node)
+        elif set(cfg.nodes_of(st)) & before:
+            rep.fail('R16.g', key, '%s can run before the endpoint: the cookie provided is not exactly what the client sent' % short(ef.node, 60), ck, ef.node)
+        else:
+            ops = [getattr(ef.node, 'value', None)] if not isinstance(ef.node, ast.Call) else list(ef.node.args) + [k.value for k in ef.node.keywords]
+            t = [o for o in ops if o is not None and _derives(fl, o, st, reqs, names, [lst])]
+            rep.check('R16.g', key, not t, 'the expiry stamp is computed from configuration and clock' if not t else
+                      'the expiry stamped into the signed cookie is taken from the request (%s): the client chooses how long its cookie stays valid'
+                      % short(t[0], 50), ck, ef.node)
+            n_ok += 1
+    for c in saves:
+        at = stmt_of(ck, c)
+        srcs = []
+        for nm, pos in (('expires', 2), ('session_expires', 3)):
+            a = argn(c, nm, pos)
+            if a is not None:
+                srcs.append((nm, a, at))
+        for k in c.keywords:
+            if k.arg is not None:
+                continue
+            layers = layers_of_var(rq.node, k.value.id) if isinstance(k.value, ast.Name) else layers_of_expr(k.value)
+            for l in layers:
+                lat = l.node if isinstance(l.node, ast.stmt) else stmt_of(ck, l.node)
+                if l.keys is not None:
+                    srcs += [(nm, l.values[nm], lat) for nm in ('expires', 'session_expires') if l.values.get(nm) is not None]
+                else:
+                    srcs.append(('**', l.node.value if isinstance(l.node, ast.Assign) else l.node, lat))
+        t = [(nm, e) for nm, e, lat in srcs if isinstance(e, ast.AST) and lat is not None and _derives(fl, e, lat, reqs, names, [lst])]
+        rep.check('R16.g', fkey(rq, 'signed expiry'), not t, 'the expiry handed to save_cookie (signed into the cookie as _expires) comes from the cookie / the configuration'
+                  if not t else 'save_cookie(%s=%s): the expiry the dependency signs into the cookie is taken from the request'
+                  % (t[0][0], short(t[0][1], 40)), ck, c)
+    rep.floor('R16.g', 4)
 
 
 # ---------------------------------------------------------------------------------------------- R16.h
